@@ -87,7 +87,11 @@ fn is_pattern_char(c: char) -> bool {
 }
 
 fn parse_timestamp_component(dt: &chrono::DateTime<chrono::Utc>, format_str: &str) -> String {
-    dt.format(format_str).to_string()
+    // chrono writes years beyond 9999 with an explicit sign ("+10000"); the year leads every format used here
+    dt.format(format_str)
+        .to_string()
+        .trim_start_matches('+')
+        .to_string()
 }
 
 pub fn resolve_timestamp(pattern: &str, timestamp: u64) -> Result<String> {
